@@ -51,7 +51,7 @@ def run(ck: Check):
     ck.rule(
         "KSWIN: streams built so that all sub-samples agree (disjoint ranges after a shift, identical multisets, constants) plus random ones; at every full-window step the window is "
         "compared with the last min_num_instances inputs, the verdict with the exact KS p-value of the RECORDED draw, and with the bounds valid for every sub-sample "
-        "(p(D_lo) <= alpha forces an alarm, p(D_hi) > alpha forbids one); same-seed runs must agree (seed 0 included); a third of the KSWIN and STEPD histories start with an earlier concept followed by reset(), the clauses being checked on everything after it. STEPD: all 0/1 streams of length 10 (12 thorough) for min in {1,2,3} and random regime-shift streams; verdict vs "
+        "(p(D_lo) <= alpha forces an alarm, p(D_hi) > alpha forbids one); same-seed runs must agree (seed 0 included); alpha set exactly to an attainable draw-independent p-value must alarm and one ulp below must not; a third of the KSWIN and STEPD histories start with an earlier concept followed by reset(), the clauses being checked on everything after it. STEPD: all 0/1 streams of length 10 (12 thorough) for min in {1,2,3} and random regime-shift streams; verdict vs "
         "the one-sided p-value of the continuity-corrected two-proportion statistic recomputed from the raw stream; non-trivial = some alarm"
     )
     cases, impl = [], []
@@ -131,6 +131,29 @@ def run(ck: Check):
         if mn <= 20:
             cases.append((KS, cfg, full_ops, full_samples))
             impl.append(full_out)
+    # KSWIN, alpha EXACTLY an attainable p-value ("<= alpha"): min_num_instances = 2 * num_test_instances, so the
+    # draw is a permutation of the whole older half and the p-value does not depend on it
+    from scipy.stats import ks_2samp
+
+    nexact = 0
+    for nt in (3, 4, 5, 8):
+        for shift in range(1, nt):
+            old = [float(i) for i in range(nt)]
+            recent = [float(i + shift) + 0.5 for i in range(nt)]
+            p = float(ks_2samp(data1=old, data2=recent, alternative="two-sided", method="auto").pvalue)
+            if not 0 < p < 1:
+                continue
+            for alpha, must in ((p, True), (math.nextafter(p, 0.0), False)):
+                cfg = dict(alpha=alpha, seed=rng.randrange(1000), min_num_instances=2 * nt, num_test_instances=nt)
+                out, exc, _ = run_kswin(KS, cfg, old + recent)
+                ck.evals += 1
+                nexact += 1
+                if exc is not None or not out:
+                    continue
+                if out[-1][0] != must:
+                    ck.violation(dict(clause="kswin-rule", detector="KSWIN", tie="exact"), dict(what="alpha equal to the (draw-independent) KS p-value must alarm; one ulp below it must not", config=cfg, stream=old + recent, p=p, drift=out[-1][0], expected=must))
+    ck.count("kswin_exact_alpha_cases", nexact)
+    ck.nontrivial.add(f"kswin-exact-alpha-{nexact}")
     # ------------------------------------------------------------------ STEPD
     from scipy.stats import norm
 
